@@ -71,7 +71,9 @@ def run(ctx, facts):
             n += 1
             ctx.violation("PANIC", FID, "callee %s: %s" % (c, e["detail"][:50]), e["where"], "the in-crate callee %s has a panic edge `%s`" % (c, e["detail"][:80]))
     ctx.ok("PANIC", FID, "%d panic edge(s) enumerated, %d precondition assertion(s) recognised" % (n, len(pre)), hirq.loc(fn))
-    ctx.floor("C07 panic edges of get_jaccard_bounds", n, 1)
+    # zero panic edges is a legitimate state (the precondition assert may become an Err); what must not shrink is the body inspected
+    from .. import mirq
+    ctx.floor("C07 MIR terminators of get_jaccard_bounds inspected for panic edges", len(fn["mir"]["blocks"]) if "blocks" in fn["mir"] else len(list(mirq.calls(fn["mir"]))), 5)
     # structural preconditions of the collision model (C04's SetSketch rules)
     from . import C04, C13
     from ..rulelib import check_seeds
